@@ -55,6 +55,10 @@ def identity_obligations() -> list:
         common = dict(prop=PROP, kind='post', functions=(name + '.__eq__', name + '.__hash__'),
                       source=source_span(core._DatabaseEntity.__eq__))
         same_row = a.attrs['_id'].z == b.attrs['_id'].z
+        if cls is core.ILI:
+            # an ILI object denotes a row of `ilis` (id given) or of `proposed_ilis` (id None): two tables, two
+            # rowid sequences - the same stored entity means the same table and the same rowid
+            same_row = z3.And(same_row, a.attrs['id'].none == b.attrs['id'].none)
         # construction invariant (from the query contracts): the attributes are functions of the rowid
         inv = []
         for k in a.attrs:
